@@ -31,6 +31,7 @@ pub fn build(ctl: &'static Ctrl, params: &Value) -> Instance {
     let owner_panic = params["owner_panic"].as_bool().unwrap_or(false);
     let child_panic = params["child_panic"].as_i64().unwrap_or(-1);
     let cancellable = params["cancel_owner"].as_bool().unwrap_or(false);
+    let explicit_join = params["explicit_join"].as_bool().unwrap_or(true);
     let sh = Arc::new(Shared { alive: AtomicBool::new(true), after_free: AtomicUsize::new(0), results: StdMutex::new(vec![]), bad: StdMutex::new(vec![]), owner_saw_panic: AtomicBool::new(false), body_done: (0..nchild).map(|_| AtomicBool::new(false)).collect() });
     let mut actors = vec![];
     let sh2 = sh.clone();
@@ -65,6 +66,9 @@ pub fn build(ctl: &'static Ctrl, params: &Value) -> Instance {
                     panic!("owner panic");
                 }
                 // join the first child explicitly, the others are joined when the scope ends
+                if !explicit_join {
+                    return;
+                }
                 if let Some(h) = hs.into_iter().next() {
                     may::verif::pt("sco.join", 0, 0, 0);
                     let v = h.join();
@@ -117,7 +121,7 @@ pub fn build(ctl: &'static Ctrl, params: &Value) -> Instance {
                     if (child_panic >= 0 || owner_panic) && !sh4.owner_saw_panic.load(SeqCst) {
                         v.push(Violation { kind: "panic_not_propagated".into(), detail: "a panic inside the scope did not reach the owner".into() });
                     }
-                    if child_panic < 0 && !owner_panic && !cancellable {
+                    if child_panic < 0 && !owner_panic && !cancellable && explicit_join {
                         let r = sh4.results.lock().unwrap();
                         if r.len() != 1 || r[0] != 0 {
                             v.push(Violation { kind: "result".into(), detail: format!("result of the joined child: {r:?}") });
